@@ -6,7 +6,7 @@ Open Scope Z_scope.
 (* The full statement, kept visible; it holds of the repaired code (C07_full_holds below). *)
 Definition C07_full : Prop := full_lines /\ full_send.
 
-(* Write never panics and never loops for ever, for every state the writer can be in (file present
+(* Write never panics and never loops for ever, for every state the writer can be in with a file name of at most 200 bytes (file present
    or removed/renamed by somebody else), every maximum size and every clock.  While the directory
    of the log is reachable it reports len(p) and keeps pos = size and the descriptor on the file
    at the path; while it is not, Stat and reopen fail: the error is returned and NOTHING changes -
@@ -23,6 +23,18 @@ Proof. exact write_total. Qed.
 Theorem C07_history_total : forall max s init ops,
   exists st, run (rf_open max s init) [] ops = Some (st, written_lens true ops) /\ rinv st /\ rf_lost st = [].
 Proof. exact history_total. Qed.
+
+(* Write and whole histories ALWAYS return - no panic, no endless loop - for every state and every
+   environment: whatever the descriptor refers to (also a closed one), whether or not the rotated
+   names can be created (file names so long that name + timestamp exceeds NAME_MAX).  What cannot
+   be written comes back as an error (WErr / None) *)
+Theorem C07_write_always_returns : forall clk st p,
+  (exists st' n, rf_write clk st p = WOk st' n) \/ (exists st', rf_write clk st p = WErr st').
+Proof. exact rf_write_returns. Qed.
+
+Theorem C07_history_always_returns : forall ops st rets,
+  exists st' rets', run st rets ops = Some (st', rets').
+Proof. exact run_returns. Qed.
 
 (* a file - active, rotated, renamed away or removed - exceeds the maximum size only if it is a
    single line (no newline inside) that is itself larger; for all histories *)
@@ -114,6 +126,14 @@ Proof. exact channel_lines. Qed.
 Theorem C07_send_always_returns : full_send.
 Proof. exact full_send_holds. Qed.
 
+(* the same for every length of the file name (rotated names that cannot be created included) *)
+Theorem C07_send_always_returns_any_name : forall n max openable s init,
+  match wl_new_env n max openable s init with
+  | Some w => 1024 <= max /\ openable = true /\ forall es, exists w', wl_run w es = Some w'
+  | None => max < 1024 \/ openable = false \/ open_fails n max s init = true
+  end.
+Proof. exact new_spec_env. Qed.
+
 Theorem C07_full_holds : C07_full.
 Proof. exact full_holds. Qed.
 
@@ -179,6 +199,18 @@ Example C07_nonvacuous_channel :
   end = true.
 Proof. vm_compute. reflexivity. Qed.
 
+(* a file name of 241 bytes: the first rotation fails, the Write returns an error with the
+   descriptor closed, later writes fail too (nothing hangs); what was written before stays *)
+Example C07_nonvacuous_overlong_name :
+  let ops := [OWrite clk0 (mkline 97 497); OWrite clk0 (mkline 98 597); OWrite clk0 (mkline 99 97)] in
+  match run (rf_open_env 241 1024 0 []) [] ops with
+  | Some (st, rets) => match rets with [Some _; None; None] => true | _ => false end
+                       && beq (rf_cur st) (mkline 97 497) && (length (rf_rot st) =? 0)%nat
+                       && match rf_fd st with FdClosed => true | _ => false end
+  | None => false
+  end = true.
+Proof. vm_compute. reflexivity. Qed.
+
 Example C07_nonvacuous_new :
   (match wl_new 1024 true 0 [] with Some _ => true | None => false end) = true /\
   (match wl_new 1024 false 0 [] with Some _ => true | None => false end) = false /\
@@ -187,6 +219,8 @@ Proof. vm_compute. auto. Qed.
 
 Print Assumptions C07_write_total.
 Print Assumptions C07_history_total.
+Print Assumptions C07_write_always_returns.
+Print Assumptions C07_history_always_returns.
 Print Assumptions C07_size_bound.
 Print Assumptions C07_write_accounts.
 Print Assumptions C07_bytes_accounted.
@@ -196,4 +230,5 @@ Print Assumptions C07_lines_kept.
 Print Assumptions C07_scan_is_index_loop.
 Print Assumptions C07_channel_lines.
 Print Assumptions C07_send_always_returns.
+Print Assumptions C07_send_always_returns_any_name.
 Print Assumptions C07_full_holds.
